@@ -13,10 +13,8 @@
 /// The execution path may also differ, which can be used to refine the stub
 /// logic.
 #[test]
-fn kani_concrete_playback_c19_radv_parsers_empty_array_3129425353057236757() {
+fn kani_concrete_playback_c19_radv_parsers_empty_array_2080389528784603622() {
     let concrete_vals: Vec<Vec<u8>> = vec![
-        // 0
-        vec![0],
     ];
     kani::concrete_playback_run(concrete_vals, c19_radv_parsers_empty_array);
 }
